@@ -362,10 +362,59 @@ def families(opts):
         doc, exp = build_model([(k, S[k])], r.wrap)
         return {'shape': M.show(S[k]), 'wrap': r.wrap, 'document': doc, 'expected': exp}
 
+    def mdl(vars_, eqs):
+        return '<?xml version="1.0" encoding="UTF-8"?>\n<model %s name="m"><component name="c">%s<math %s>%s</math></component></model>' % (NS, ''.join(vars_), MNS, ''.join(eqs))
+    V_ = lambda n, iv=None: '<variable name="%s" units="dimensionless"%s/>' % (n, '' if iv is None else ' initial_value="%s"' % iv)
+    CN = lambda x: '<cn cellml:units="dimensionless">%s</cn>' % x
+    EQ = lambda l, r_: '<apply><eq/>%s%s</apply>' % (l, r_)
+    CI = lambda n: '<ci>%s</ci>' % n
+    DIFF = lambda x, t='t': '<apply><diff/><bvar><ci>%s</ci></bvar><ci>%s</ci></apply>' % (t, x)
+    INVALID = [
+        ('nomodel', None), ('nullmodel', None),
+        ('underconstrained', mdl([V_('x'), V_('y')], [EQ(CI('x'), '<apply><plus/>%s%s</apply>' % (CI('y'), CN(1)))])),
+        ('overconstrained', mdl([V_('x')], [EQ(CI('x'), CN(1)), EQ(CI('x'), CN(2))])),
+        ('unsuitably', mdl([V_('x'), V_('y'), V_('z')], [EQ(CI('x'), CN(1)), EQ(CI('x'), CN(2)), EQ(CI('y'), '<apply><plus/>%s%s</apply>' % (CI('z'), CN(1)))])),
+        ('two-voi', mdl([V_('x', 1), V_('y', 1), V_('t'), V_('s')], [EQ(DIFF('x', 't'), CN(1)), EQ(DIFF('y', 's'), CN(1))])),
+        ('initialised-voi', mdl([V_('x', 1), V_('t', 0)], [EQ(DIFF('x'), CN(1))])),
+        ('uninitialised-state', mdl([V_('x'), V_('t')], [EQ(DIFF('x'), CN(1))])),
+        ('second-order-ode', mdl([V_('x', 1), V_('t')], ['<apply><eq/><apply><diff/><bvar><ci>t</ci><degree>%s</degree></bvar><ci>x</ci></apply>%s</apply>' % (CN(2), CN(1))])),
+        ('validation-error', mdl([V_('x'), '<variable name="x" units="dimensionless"/>'], [EQ(CI('x'), CN(1))])),
+        ('unknown-units', mdl(['<variable name="x" units="nounits"/>'], [EQ(CI('x'), CN(1))])),
+        ('not-equality', mdl([V_('x')], ['<apply><plus/>%s%s</apply>' % (CI('x'), CN(1))])),
+        ('empty-model', '<?xml version="1.0"?><model %s name="m"/>' % NS),
+        ('no-math', '<?xml version="1.0"?><model %s name="m"><component name="c">%s</component></model>' % (NS, V_('x', 1))),
+    ]
+
+    def run_invalid(i, ctx):
+        name, doc = INVALID[i]
+        if r.lcx is None:
+            r.lcx = Lcx(r.flavour)
+        job = {'id': i, 'nomodel': True, 'nullmodel': name == 'nullmodel'} if doc is None else {'id': i, 'doc': doc}
+        res = r.lcx.job(job)
+        ctx.judged += 1
+        if 'crash' in res:
+            ctx.violation('invalid:%s:pipeline-crash:%s' % (name, res['crash']), {'stderr_tail': res.get('stderr', '')})
+            return
+        for x in res.get('c15', []):
+            ctx.violation('C15:logger-incoherent:' + x['service'], x)
+        ctx.outcome('%s:%s' % (name, res.get('type')))
+        if doc is not None and res.get('valid'):
+            if name in ('empty-model', 'no-math'):
+                ctx.outcome('analysed-as-valid:' + name)
+                return
+            ctx.violation('invalid:%s:analysed-as-valid' % name, {'type': res.get('type')})
+            return
+        if doc is not None and not res.get('analyse_issues') and name not in ('empty-model', 'no-math'):
+            ctx.violation('C15:failure-not-explained:analyser:%s' % name, {'type': res.get('type')})
+        for k in ('c_h', 'c_c', 'py_h', 'py'):
+            if res.get(k, '') != '':
+                ctx.violation('structure:code-not-empty-for-%s:%s' % ('missing-model' if doc is None else 'invalid-model', k), {'case': name, 'type': res.get('type'), 'code_head': res[k][:200]})
+
     import atexit
     atexit.register(r.cleanup)
     return [Family('pack', lambda: (len(S) + PACK - 1) // PACK, run_pack, lambda i: {'pack': i, 'wrap': r.wrap, 'first_shape': M.show(S[i * PACK]), 'last_shape': M.show(S[min(len(S), (i + 1) * PACK) - 1])}),
-            Family('shape', lambda: len(S), run_shape, show_shape)]
+            Family('shape', lambda: len(S), run_shape, show_shape),
+            Family('invalid', lambda: len(INVALID), run_invalid, lambda i: {'case': INVALID[i][0], 'document': INVALID[i][1]})]
 
 
 if __name__ == '__main__':
